@@ -276,13 +276,17 @@ def _gen(stratum, rng, tier, auto):
         pairs = _pairs(rng, n, rng.randint(0, 2 * n + 3), dup=0.2, anti=0.2, loops=0.1)
         edges = [(u, v, 1) for u, v in pairs]
         damping = rng.choice([0.5, 0.85, 0.85, 0.95])
-        tol = rng.choice([1e-6, 1e-6, 1e-3, 1e-8, 1e-10])
+        tol = rng.choice([1e-6, 1e-6, 1e-3, 1e-8, 1e-10, 0.0])
         from vf.oracles import c12_oracles as O
 
-        K, _, _, conv = O.pagerank_iterates(n, pairs, damping, tol, 2000)
-        its = {K, K + 1, rng.choice([1, 2, 3, 100])}
-        if K > 1:
-            its.add(K - 1)
+        if tol == 0.0:
+            # "use the whole budget": max_diff < 0 never holds, both back-ends must come back MAX_ITER after max_iter rounds
+            its = {1, rng.choice([5, 30, 100, 300]), rng.choice([20, 60, 150])}
+        else:
+            K, _, _, conv = O.pagerank_iterates(n, pairs, damping, tol, 2000)
+            its = {K, K + 1, rng.choice([1, 2, 3, 100])}
+            if K > 1:
+                its.add(K - 1)
         jobs = [("pagerank_edges", {"damping": damping, "tol": tol, "max_iter": mi}) for mi in sorted(its)]
         if rng.random() < 0.5:
             jobs.append(("pagerank_edges", {}))
@@ -1000,7 +1004,7 @@ def _same_meaning(short, a, b, approx, n, kw):
     """a, b: meanings with equal status"""
     if short == "pr":
         tol = kw.get("tol", 1e-6)
-        return all(abs(x - y) <= n * tol for x, y in zip(a[1], b[1]))
+        return all(abs(x - y) <= max(n * tol, 1e-9) for x, y in zip(a[1], b[1]))
     if len(a) != len(b):
         return False
     for x, y in zip(a[1:], b[1:]):
